@@ -72,13 +72,14 @@ SummPairOK(e) ==
 (* order in the error of the mean) is judged; the correlation divides by standard deviations that are, legitimately, only  *)
 (* accurate to the unit roundoff times that condition number                                                              *)
 CovOnly(e) == Has(e, "covonly") /\ e.covonly
+PQE(e) == IF Has(e, "pqe") THEN e.pqe ELSE e.qe          \* resolution of the logged correlation (default: that of the covariance)
 PearOK(e) ==
     LET nv == Len(e.rows) IN
     /\ \A i, j \in 1..nv :
-          /\ Len(e.rows[1]) <= 5 => PearsonOK(e.rows[i], e.rows[j], e.pear[i][j], e.qe, e.tol)
-          /\ Abs(e.pear[i][j]) <= Q(e.qe) + e.tol
+          /\ Len(e.rows[1]) <= 5 => PearsonOK(e.rows[i], e.rows[j], e.pear[i][j], PQE(e), e.tol)
+          /\ Abs(e.pear[i][j]) <= Q(PQE(e)) + e.tol
           /\ Abs(e.pear[i][j] - e.pear[j][i]) <= e.tol
-    /\ \A i \in 1..nv : Abs(e.pear[i][i] - Q(e.qe)) <= e.tol           \* diagonal: one
+    /\ \A i \in 1..nv : Abs(e.pear[i][i] - Q(PQE(e))) <= e.tol           \* diagonal: one
     \* unchanged by a positive affine rescaling of variable k, sign flip of row/column k under negation
     /\ \A i, j \in 1..nv :
           /\ ~Special(e.pear_scaled[i][j]) /\ Abs(e.pear_scaled[i][j] - e.pear[i][j]) <= e.tol
